@@ -321,7 +321,10 @@ def dump(reader, idx, schema, rng=None, maxterms=40, columns=True, vectors=True,
         try:
             fn()
         except Exception as ex:
-            obs.append({"kind": "error", "path": path, "err": type(ex).__name__, "msg": str(ex)[:160]})
+            import traceback
+            tb = traceback.extract_tb(ex.__traceback__)
+            obs.append({"kind": "error", "path": path, "err": type(ex).__name__, "msg": str(ex)[:160],
+                        "where": ["%s:%d %s" % (f.filename.split("/")[-1], f.lineno, f.name) for f in tb[-3:]]})
 
     guard("counts", lambda: obs.append({"kind": "counts", "all": reader.doc_count_all(), "live": reader.doc_count(),
                                         "hasdel": bool(reader.has_deletions())}))
@@ -378,6 +381,11 @@ def dump(reader, idx, schema, rng=None, maxterms=40, columns=True, vectors=True,
         for dn in live:
             guard("fieldlen", lambda f=f, dn=dn: obs.append({"kind": "fieldlen", "f": f, "d": dn,
                                                              "n": int(reader.doc_field_length(dn, f))}))
+    # the term-iteration APIs, relative to the lexicons just listed (all_terms, terms_from, iter_from, iter_field,
+    # iter_prefix, expand_prefix, field_terms, frequency, doc_frequency, first_id, most_frequent_terms)
+    guard("termiter", lambda: obs.extend(term_iteration(reader, schema, rng)))
+    guard("docids", lambda: obs.append({"kind": "docids", "all_doc_ids": [int(x) for x in reader.all_doc_ids()],
+                                        "iter_docs": [int(dn) for dn, _ in reader.iter_docs()]}))
     for dn in live:
         def st(dn=dn):
             sf = reader.stored_fields(dn)
@@ -421,6 +429,67 @@ def dump(reader, idx, schema, rng=None, maxterms=40, columns=True, vectors=True,
                         vid = value_id(f, v)
                     obs.append({"kind": "column", "f": f, "d": dn, "v": vid})
             guard("column:" + f, col)
+    return obs
+
+
+def _first_id(reader, f, text):
+    from whoosh.reading import TermNotFound
+    try:
+        return int(reader.first_id(f, text))
+    except TermNotFound:
+        return -1          # no live document has the term
+
+
+def term_iteration(reader, schema, rng):
+    import random
+    rng = rng or random.Random(7)
+    obs = []
+    names = sorted(f for f in TEXT_FIELDS if f in schema.names() or f in reader.indexed_field_names())
+    names = [f for f in names if f in reader.indexed_field_names()]
+    flex = [[f, [term_of(t) for t in reader.lexicon(f)]] for f in names]
+    nodel = not reader.has_deletions()
+    prefixes = [[], [1], [2], [3], [1, 2], [2, 2, 2], [1, 1]]
+
+    def info(ti):
+        return [int(ti.doc_frequency()), _scaled(ti.weight())]
+    # every term of the index, in (field, term) order
+    got = [[names.index(f) + 1, term_of(t)] for f, t in reader.all_terms() if f in names]
+    obs.append({"kind": "termsfrom", "path": "all_terms()", "flex": flex, "fi": 1, "p": [], "got": got})
+    for fi, (f, lex) in enumerate(flex):
+        fobj = schema[f] if f in schema.names() else None
+        for p in rng.sample(prefixes, 3):
+            text = world.term_text(p)
+            btext = text.encode("utf8")
+            got = [[names.index(g) + 1, term_of(t)] for g, t in reader.terms_from(f, btext) if g in names]
+            obs.append({"kind": "termsfrom", "path": "terms_from(%s, %r)" % (f, text), "flex": flex, "fi": fi + 1, "p": p,
+                        "got": got})
+            got = [[names.index(g) + 1, term_of(t)] + info(ti) for (g, t), ti in reader.iter_from(f, text) if g in names]
+            obs.append({"kind": "termsfrom", "path": "iter_from(%s, %r)" % (f, text), "flex": flex, "fi": fi + 1, "p": p,
+                        "got": [x[:2] for x in got], "infos": [[x[0], x[1], x[2], x[3]] for x in got], "nodel": nodel})
+            obs.append({"kind": "fieldterms", "path": "expand_prefix(%s, %r)" % (f, text), "f": f, "lex": lex, "p": p,
+                        "mode": "prefix", "terms": [term_of(t) for t in reader.expand_prefix(f, text)]})
+            got = [[term_of(t)] + info(ti) for t, ti in reader.iter_prefix(f, text)]
+            obs.append({"kind": "fieldterms", "path": "iter_prefix(%s, %r)" % (f, text), "f": f, "lex": lex, "p": p,
+                        "mode": "prefix", "terms": [x[0] for x in got], "infos": got, "nodel": nodel})
+            got = [[term_of(t)] + info(ti) for t, ti in reader.iter_field(f, prefix=text)]
+            obs.append({"kind": "fieldterms", "path": "iter_field(%s, prefix=%r)" % (f, text), "f": f, "lex": lex, "p": p,
+                        "mode": "from", "terms": [x[0] for x in got], "infos": got, "nodel": nodel})
+            n = rng.choice([1, 2, 5])
+            obs.append({"kind": "mostfrequent", "path": "most_frequent_terms(%s, %d, %r)" % (f, n, text), "f": f, "lex": lex,
+                        "p": p, "n": n, "nodel": nodel,
+                        "list": [[_scaled(w), term_of(t)] for w, t in reader.most_frequent_terms(f, n, text)]})
+        if fobj is not None:
+            obs.append({"kind": "fieldterms", "path": "field_terms(%s)" % f, "f": f, "lex": lex, "p": [], "mode": "from",
+                        "terms": [term_of(t) for t in reader.field_terms(f)]})
+        for t in (rng.sample(lex, 3) if len(lex) > 3 else lex):
+            text = world.term_text(t)
+            obs.append({"kind": "termfreq", "path": "frequency/doc_frequency/first_id(%s, %r)" % (f, text), "f": f, "t": t,
+                        "nodel": nodel, "frequency": _scaled(reader.frequency(f, text)),
+                        "doc_frequency": int(reader.doc_frequency(f, text)), "first_id": _first_id(reader, f, text)})
+        text = u"cccc"
+        if (f, text) not in reader:
+            obs.append({"kind": "termfreq0", "path": "frequency/doc_frequency of an absent term", "f": f,
+                        "frequency": _scaled(reader.frequency(f, text)), "doc_frequency": int(reader.doc_frequency(f, text))})
     return obs
 
 
